@@ -549,7 +549,9 @@ def genImplCase (fam : String) (seed idx : Nat) : Case := runGen seed idx do
   let rhsArg ← pickW [(3, (none : Option Ty)), (2, some Ty.selfTy), (2, some (.ref none false Ty.selfTy)),
                       (2, some (Ty.simple "u8")), (2, some (.ref none false (Ty.simple "u8"))),
                       (1, some (Ty.app "Y" [Ty.selfTy])), (1, some (.ref none false (Ty.app "Y" [tyT]))),
-                      (1, some x), (1, some (.ref none false x)), (1, some (.ref (some "'a") false (Ty.simple "u8")))]
+                      (1, some x), (1, some (.ref none false x)), (1, some (.ref (some "'a") false (Ty.simple "u8"))),
+                      (1, some (.qpath Ty.selfTy false [.mk "Tr" []] [.mk "Assoc" []])),
+                      (1, some (.ref none false (.qpath (Ty.app "Vec" [Ty.selfTy]) false [.mk "Tr" []] [.mk "Assoc" []])))]
   let traitName := op.str ++ (if baseAssign then "Assign" else "")
   -- now and then the single generic argument of the trait is not a type (then the right-hand side is `Self`)
   let oddArg ← pickW [(20, (none : Option GArg)), (1, some (.lt "'a")), (1, some (.lit "3")), (1, some (.assoc "Output" (Ty.simple "u8")))]
@@ -572,7 +574,10 @@ def genImplCase (fam : String) (seed idx : Nat) : Case := runGen seed idx do
     else some (tglobal && pathStyle != 0, segs)
   let neg := weird == 3
   let output ← pickW [(5, some Ty.selfTy), (2, some x), (1, some (Ty.app "Vec" [Ty.selfTy])), (1, some (Ty.simple "u8")), (1, none),
-                      (1, some (Ty.app "Box" [.dynT false [.fn "Fn" [Ty.selfTy] (some Ty.selfTy)]]))]
+                      (1, some (Ty.app "Box" [.dynT false [.fn "Fn" [Ty.selfTy] (some Ty.selfTy)]])),
+                      -- `Self` as the self type of a qualified path
+                      (1, some (.qpath Ty.selfTy false [.mk "Tr" []] [.mk "Assoc" []])),
+                      (1, some (.qpath (Ty.app "Wrap" [Ty.selfTy]) true [.mk "m" [], .mk "Tr" [.ty Ty.selfTy]] [.mk "Assoc" []]))]
   let fnToks : Toks := ["fn", "f", "(", "self", ")", "{", "}"]
   let members : List ImplMember :=
     (if baseAssign then [] else (match output with | some t => [.output t] | none => [])) ++ [.other fnToks]
@@ -582,7 +587,9 @@ def genImplCase (fam : String) (seed idx : Nat) : Case := runGen seed idx do
       pure ((ImplMember.other ["type", "Other", "=", "u8", ";"]) :: members ++ [.other ["const", "C", ":", "u8", "=", "1", ";"]])
     else pure members
   let wh ← pickW [(5, ([] : List WPred)), (2, [.ty [] Ty.selfTy [.trait false [] (Ty.simple "Clone")]]),
-                  (1, [.ty [] tyT [.trait false [] (.path false [.mk "Tr" [.ty Ty.selfTy]])]])]
+                  (1, [.ty [] tyT [.trait false [] (.path false [.mk "Tr" [.ty Ty.selfTy]])]]),
+                  (1, [.ty [] (.qpath Ty.selfTy false [.mk "Tr" []] [.mk "Assoc" []]) [.trait false [] (Ty.simple "Clone")]]),
+                  (1, [.ty [] (Ty.simple "u8") [.trait false [] (.path false [.mk "Tr" [.assoc "Assoc" (.qpath Ty.selfTy false [.mk "Tr" []] [.mk "Assoc" []])]])]])]
   let ps : List GParam := (if generic then [.ty "T" [] none] else []) ++
     (match selfTy with | .ref (some _) _ _ => [.lt "'a" []] | _ => [])
   let ps := ps.filter (·.isLt) ++ ps.filter (!·.isLt)
